@@ -32,7 +32,7 @@ NAME_CMD = {"OPERATIONAL": 1, "STOPPED": 2, "SLEEP": 80, "STANDBY": 96, "PRE-OPE
 
 def plan(tier, seed):
     n = 9
-    return [{"histories": 40 if tier == "quick" else 300, "length": 30 if tier == "quick" else 200, "modifiable": [True, False, "copy"][i % 3],
+    return [{"histories": 40 if tier == "quick" else 1200, "length": 30 if tier == "quick" else 200, "modifiable": [True, False, "copy"][i % 3],
              "cs": seed * 100 + i} for i in range(n)]
 
 
